@@ -47,6 +47,10 @@ FAULTS = {
     "a-sub": ([], [], "ZS9 1, 2", []),
     "a-fun": ([], [], "V% = ZF9%(1, 2)", []),
     "a-builtin": ([], [], 'PRINT MID$("a")', []),
+    # an argument is missing in FRONT of arguments of other types (the ones that are there stand under the wrong parameters)
+    "a-sub-shift": ([], [], 'ZM9 "x"', []),
+    "a-fun-shift": ([], [], 'V% = ZN9%("x", 2)', []),
+    "a-sub-extra-front": ([], [], 'ZM9 "q", 1, "x"', []),
     "a-builtin2": ([], [], "PRINT CHR$(1, 2)", []),
     # run time: division by zero
     "r-div": ([], [], "V% = 1 / Z%", []),
@@ -278,6 +282,11 @@ def build(case):
     doc.add(0, "END SUB")
     doc.add(0, "FUNCTION ZF9% (A%)")
     doc.add(1, "ZF9% = A%")
+    doc.add(0, "END FUNCTION")
+    doc.add(0, "SUB ZM9 (A%, B$)")
+    doc.add(0, "END SUB")
+    doc.add(0, "FUNCTION ZN9% (A%, B$, C%)")
+    doc.add(1, "ZN9% = A%")
     doc.add(0, "END FUNCTION")
     return emit(doc, case)
 
